@@ -136,11 +136,21 @@ def exec_leaves(case):
 class FakePio(object):
     """A pyramid I/O object for transforms that records which process handled which tile."""
 
-    def __init__(self, world, holes):
+    def __init__(self, world, holes, kind="u8"):
         self.world = world
         self.holes = set(holes)
+        self.kind = kind
         self.reads = []
         self.writes = []
+
+    @staticmethod
+    def tile_value(p, kind):
+        """(stored value, value expected in the transformed tile) - distinguishes neighbouring tiles"""
+        if kind == "u8":
+            v = (p[0] * 37 + p[1] * 5 + p[2]) % 251
+            return v, v
+        v = np.float16(((p[0] * 37 + p[1] * 5 + p[2]) % 40) / 40.0)
+        return v, int(np.clip(np.sqrt(float(v)) * 255, 0, 255))
 
     def __deepcopy__(self, memo):
         return self
@@ -157,7 +167,9 @@ class FakePio(object):
             self.world.checkpoint("read")
         if p in self.holes:
             return None
-        return Image.from_array(np.full((256, 256), (p[0] * 37 + p[1] * 5 + p[2]) % 251, dtype=np.uint8))
+        if self.kind == "u8":
+            return Image.from_array(np.full((256, 256), self.tile_value(p, "u8")[0], dtype=np.uint8))
+        return Image.from_array(np.full((256, 256, 3), self.tile_value(p, "f16x3")[0], dtype=np.float16))
 
     def write_image(self, pos, image, format=None, mode=None, **kw):
         self.writes.append((tuple(pos), self._pid(), int(image.asarray()[0, 0, 0]), format))
@@ -173,31 +185,52 @@ def exec_transform(case):
     from toasty import transform
 
     depth, k = case["depth"], case["k"]
+    which = case.get("which", "u8")  # the two public pyramid-wide transforms
+    sep_out = bool(case.get("sep_out"))  # results into another pyramid (pio_out=), as `toasty transform --outdir` does
     holes = [tuple(h) for h in case.get("holes", [])]
     desc = {a: b for a, b in case.items() if a != "sched"}
-    classes = ["transform", f"depth{depth}", f"k{k}"]
+    classes = ["transform", which, f"depth{depth}", f"k{k}"] + (["separate-output-pyramid"] if sep_out else [])
     expected = list(rp.all_positions(depth))
     dev = 0
+
+    def call(pio, pio_out, par):
+        kw = {"parallel": par}
+        if pio_out is not None:
+            kw["pio_out"] = pio_out
+        if which == "u8":
+            return transform.u8_to_rgb(pio, depth, **kw)
+        if case.get("out_format"):
+            kw["out_format"] = case["out_format"]
+        return transform.f16x3_to_rgb(pio, depth, **kw)
+
     if k == 1:
-        pio = FakePio(None, holes)
+        pio = FakePio(None, holes, which)
+        pio_out = FakePio(None, [], which) if sep_out else None
         try:
-            transform.u8_to_rgb(pio, depth, parallel=1)
+            call(pio, pio_out, 1)
         except Exception as e:  # noqa
             raise Violation("terminates", f"serial transform raised {type(e).__name__}: {e}")
         w = None
     else:
         w = SimWorld(case.get("sched"))
-        pio = FakePio(w, holes)
-        w, res = scen.run_sim(lambda: transform.u8_to_rgb(pio, depth, parallel=k), None, world=w)
+        pio = FakePio(w, holes, which)
+        pio_out = FakePio(w, [], which) if sep_out else None
+        w, res = scen.run_sim(lambda: call(pio, pio_out, k), None, world=w)
         judge_termination(desc, res, w)
         dev = w.deviations
         sim_facts(w, classes)
     judge_items(desc, [r[0] for r in pio.reads], expected, "tiles transformed")
     exp_w = [p for p in expected if p not in set(holes)]
-    judge_items(desc, [r[0] for r in pio.writes], exp_w, "tiles written")
-    for p, _pid, val, fmt in pio.writes:
-        if val != (p[0] * 37 + p[1] * 5 + p[2]) % 251:
-            raise Violation("own-item", f"tile {p} written with the content of another tile")
+    sink = pio_out if sep_out else pio
+    judge_items(desc, [r[0] for r in sink.writes], exp_w, "tiles written")
+    if sep_out and (pio.writes or pio_out.reads):
+        raise Violation("exactly-once", f"a separate output pyramid was given, but the input pyramid was written {len(pio.writes)} time(s) / the output pyramid read {len(pio_out.reads)} time(s); case {desc}")
+    want_fmt = "jpg" if which == "u8" else (case.get("out_format") or "png")
+    for p, _pid, val, fmt in sink.writes:
+        if abs(val - FakePio.tile_value(p, which)[1]) > (0 if which == "u8" else 1):
+            raise Violation("own-item", f"tile {p} written with the content of another tile (value {val}, expected {FakePio.tile_value(p, which)[1]}); case {desc}")
+        if fmt != want_fmt:
+            raise Violation("own-item", f"tile {p} written as {fmt!r}, the transform's output format is {want_fmt!r}; case {desc}")
     if w is not None:
         judge_workers(desc, w)
         if w.leftovers():
@@ -213,6 +246,12 @@ def strat_transform(draw, tier):
     k = draw(st.sampled_from([1, 2, 2, 3, 4, 8]))
     holes = draw(st.lists(gens.positions(depth), max_size=4))
     case = {"depth": depth, "k": k, "holes": holes}
+    if draw(st.integers(0, 2)) == 0:
+        case["which"] = "f16x3"
+        if draw(st.booleans()):
+            case["out_format"] = draw(st.sampled_from(["png", "jpg"]))
+    if draw(st.integers(0, 3)) == 0:
+        case["sep_out"] = True
     if k > 1:
         case["sched"] = draw(scen.schedules())
     return case
@@ -525,7 +564,7 @@ PARTS = [
         shards={"quick": 16, "thorough": 16},
         budget_s={"quick": 60, "thorough": 900},
         engine="A / serial for k=1",
-        describe="pyramid-wide transform u8_to_rgb over all positions of depth 0..3 with holes x k x schedules",
+        describe="pyramid-wide transforms u8_to_rgb / f16x3_to_rgb (in place or into a separate output pyramid) over all positions of depth 0..3 with holes x k x schedules",
     ),
 ]
 
